@@ -1218,7 +1218,8 @@ class Interp:
         else:
             if isinstance(st, ast.For):
                 if spec.after:
-                    a = spec.after(self, env, ghost)
+                    import inspect
+                    a = spec.after(self, env, ghost, st) if len(inspect.signature(spec.after).parameters) >= 4 else spec.after(self, env, ghost)
                     if a is not None:
                         ex.assume(a)
             else:
